@@ -957,6 +957,7 @@ func (p *Parser) Parse() (Statement, error) {
 	fieldsErr := selectStmt.ValidateFields(checkCtx)
 
 	// Check syntax
+	expr = resolveFieldName(expr, checkCtx)
 	err = expr.Check(checkCtx)
 	if err != nil {
 		return nil, err
